@@ -57,6 +57,8 @@ def assemble(repo, cdir, unit, mutate=None, mustfail=False):
             n = ex["text"].count(mutate["find"])
             if n >= 1:
                 ex["text"] = ex["text"].replace(mutate["find"], mutate["replace"], 1)
+                if mutate.get("fixup"):
+                    ex["text"] = ex["text"].replace(mutate["fixup"][0], mutate["fixup"][1], 1)
                 mutate["applied"] = mutate.get("applied", 0) + 1
         cur = "".join(parts)
         start_line = cur.count("\n") + 1
@@ -162,7 +164,7 @@ def classify(diags, meta):
 def run_verus(path, rlimit=30, timeout=900, multiple_errors=6):
     t0 = time.time()
     cmd = ["verus", path, "--output-json", "--time", "--rlimit", str(rlimit),
-           "--multiple-errors", str(multiple_errors), "--num-threads", "8"]
+           "--multiple-errors", str(multiple_errors), "--num-threads", "8", "--triggers-mode", "silent"]
     try:
         p = subprocess.run(cmd, capture_output=True, text=True, timeout=timeout,
                            cwd=os.path.dirname(path))
@@ -200,6 +202,22 @@ def check_unit(repo, cdir, unit, workdir, tier="quick", seed=0):
         res["status"] = "undecided"
         res["undecided"].append("extract: %s" % e)
         return res
+    # syntactic side conditions on functions that are not extracted
+    for rt in unit.get("requires_text", []):
+        try:
+            from .extract import locate
+            src = open(os.path.join(repo, rt["file"]), encoding="utf-8").read()
+            loc = locate(src, rt["path"])
+            body = src[loc["sig_start"]:loc["end"]]
+            missing = [t for t in rt["must_contain"] if t not in body]
+            if missing:
+                res["status"] = "undecided"
+                res["undecided"].append("anchor lost in %s: expected text %r (%s)" % (rt["path"][-1], missing, rt["why"]))
+                return res
+        except Undecided as e:
+            res["status"] = "undecided"
+            res["undecided"].append("requires_text: %s" % e)
+            return res
     path = os.path.join(workdir, unit["name"] + ".rs")
     with open(path, "w") as fh:
         fh.write(text)
